@@ -42,7 +42,24 @@ async fn check_image(image: &str, what: &str, lo: u64, hi: u64, bad: &mut Vec<St
     }
     // the reopened log stays appendable at its end
     let rec = LogRecordDto { index: end, term: 9, value: b"after-crash".to_vec() };
-    match reopened.write(&rec).await { Ok(LogWriteMark::Success) | Ok(LogWriteMark::SuccessToEnd) => {}, other => bad.push(format!("VX-BOUNDED-FAIL CRASH {}: the reopened log refuses the append at its end index {}: {:?}", what, end, other.map(|_| ()))) }
+    match reopened.write(&rec).await { Ok(LogWriteMark::Success) | Ok(LogWriteMark::SuccessToEnd) => {}, other => { bad.push(format!("VX-BOUNDED-FAIL CRASH {}: the reopened log refuses the append at its end index {}: {:?}", what, end, other.map(|_| ()))); return; } }
+    // ... and a SECOND stop right after that append (flushed) reopens as exactly the recovered entries + the new one: nothing that the
+    // crash or the truncation removed comes back behind the new record (seed C04-4: bytes of removed records left behind the end mark)
+    if reopened.flush_log().await.is_err() { return; }
+    drop(reopened);
+    let mut again = match LogInnerManager::init(image.to_owned(), 0, 0, 0).await {
+        Ok(m) => m,
+        Err(e) => { bad.push(format!("VX-BOUNDED-FAIL CRASH {}: after one more append the image does not reopen: {}", what, e)); return; }
+    };
+    let end2 = again.get_end_index();
+    if end2 != end + 1 { bad.push(format!("VX-BOUNDED-FAIL CRASH {}: recovered {} entries, appended one, stopped again: the log reopens with end index {} instead of {}", what, end, end2, end + 1)); return; }
+    let records = again.read_records(0, end2).await.unwrap_or_default();
+    if records.len() as u64 != end2 { bad.push(format!("VX-BOUNDED-FAIL CRASH {}: after one more append and a stop {} of {} entries can be read back", what, records.len(), end2)); return; }
+    for (i, r) in records.iter().enumerate() {
+        let i = i as u64;
+        let ok = if i < end { r.index == i && r.term == cterm(i) && r.value == cpayload(i) } else { r.index == end && r.term == 9 && r.value == b"after-crash".to_vec() };
+        if !ok { bad.push(format!("VX-BOUNDED-FAIL CRASH {}: after one more append and a stop entry {} comes back as (index {}, term {}, {} bytes)", what, i, r.index, r.term, r.value.len())); return; }
+    }
 }
 
 #[tokio::test]
